@@ -1404,6 +1404,15 @@ def _scalarised(t, batch_calls):
             return walk(x[1][1], True)
         if x[0] == 'phi':
             return all(walk(a, under) for a in x[1])
+        # element-wise constructs: selecting the element of the result selects it in the operand
+        if x[0] == 'binop':
+            return walk(x[2], under) and walk(x[3], under)
+        if x[0] == 'unary':
+            return walk(x[2], under)
+        if x[0] == 'call' and x[1][0] == 'global' and x[1][1] in (
+                'numpy.log', 'numpy.exp', 'numpy.sqrt', 'numpy.abs', 'numpy.square',
+                'numpy.negative', 'numpy.log1p', 'numpy.expm1') and len(x[2]) == 1:
+            return walk(x[2][0], under)
         ok = True
         for c in x[1:]:
             if isinstance(c, tuple):
